@@ -84,7 +84,6 @@ Qed.
 (* ---- names *)
 Lemma rmatch_refl n : rmatch n n = true.
 Proof. induction n as [|c n IH]; simpl; auto. rewrite Z.eqb_refl, orb_true_r. exact IH. Qed.
-Definition unamb (n : name) : Prop := forall m, In m (names s) -> rmatch m n = true -> m = n.
 Lemma filter_none {A} (f : A -> bool) l : (forall y, In y l -> f y = false) -> filter f l = [].
 Proof.
   induction l as [|y l IH]; simpl; auto. intro H. rewrite (H y) by now left. apply IH. intros; apply H; now right.
@@ -100,17 +99,19 @@ Proof.
     + exfalso. assert (y = x) by (apply Hu; auto). subst. contradiction.
     + apply IH; auto.
 Qed.
+(* a stored name designates itself (exact match has priority over the reading as a pattern) *)
 Lemma name_lookup c n :
-  nth_error (names s) c = Some n -> unamb n ->
+  nth_error (names s) c = Some n ->
   expand1 (names s) n = [n] /\ rank_in_list (names s) n = Some c.
 Proof.
-  intros Hc Hu. destruct HI as [_ [_ [Hnd _]]]. unfold Inv_names in Hnd. split.
-  - apply filter_single; auto. eapply nth_error_In; eauto. apply rmatch_refl.
-  - unfold rank_in_list. eapply find_index_first; eauto. apply rmatch_refl.
-    intros j y Hj Hy. destruct (rmatch y n) eqn:E; auto.
-    assert (y = n) by (apply Hu; auto; eapply nth_error_In; eauto). subst.
-    assert (j = c) by (eapply NoDup_nth_error_inj; eauto).
-    lia.
+  intros Hc. destruct HI as [_ [_ [Hnd _]]]. unfold Inv_names in Hnd. split.
+  - unfold expand1. replace (mem_name n (names s)) with true; auto.
+    symmetry. apply mem_name_In. eapply nth_error_In; eauto.
+  - unfold rank_in_list.
+    rewrite (find_index_first (fun x => name_eqb x n) (names s) c n); auto.
+    + now apply name_eqb_eq.
+    + intros j y Hj Hy. destruct (name_eqb y n) eqn:E; auto. apply name_eqb_eq in E. subst y.
+      assert (j = c) by (eapply NoDup_nth_error_inj; eauto). lia.
 Qed.
 
 (* C07_designators *)
@@ -123,7 +124,7 @@ Lemma designators c :
     (forall t k, t < NLOC -> nth_error (loc s t) k = Some u ->
        col_of_loc s t k = Some c /\ loc_of_col s c = Some (t, k) /\ column_of_loc s t k = column s c) /\
     (forall t k, loc_of_col s c = Some (t, k) -> nth_error (loc s t) k = Some u) /\
-    (forall n, nth_error (names s) c = Some n -> unamb n ->
+    (forall n, nth_error (names s) c = Some n ->
        colidx_of_name s n = Some c /\ uid_of_name s n = Some u /\ column_of_name s n = column s c).
 Proof.
   intro Hc. destruct (uid_of_col_ex c Hc) as [u Hu]. exists u.
@@ -137,7 +138,7 @@ Proof.
     + unfold column_of_loc. now rewrite E.
   - intros t k H. apply find_loc_from_some in H. destruct H as [u' [H1 H2]].
     rewrite (col_of_uid_inj _ _ _ H2 Hcu) in H1. exact H1.
-  - intros n Hn Hun. destruct (name_lookup c n Hn Hun) as [E1 E2].
+  - intros n Hn. destruct (name_lookup c n Hn) as [E1 E2].
     assert (Eids : ids_name s n true = [u]).
     { unfold ids_name, uids_basic. rewrite E1. simpl. rewrite E2, Hu. reflexivity. }
     split; [|split].
@@ -164,44 +165,14 @@ Proof.
 Qed.
 End Desig.
 
-(* reported number of active samples = number of samples reported active, when the selection is defined *)
-Lemma active_count s :
-  sel_defined s -> active_number s = length (filter (is_active s) (seq 0 (nech s))).
+(* reported number of active samples = number of samples reported active *)
+Lemma active_count s : active_number s = length (filter (is_active s) (seq 0 (nech s))).
 Proof.
-  intro Hd. unfold active_number. destruct (loc s SEL) as [|u0 l0] eqn:E.
-  - assert (F : filter (is_active s) (seq 0 (nech s)) = seq 0 (nech s)).
-    { rewrite <- (app_nil_r (seq 0 (nech s))) at 2. induction (seq 0 (nech s)); simpl; auto.
-      unfold is_active at 1. rewrite E. now rewrite IHl, app_nil_r. }
-    now rewrite F, seq_length.
-  - f_equal. apply filter_ext_in. intros e He. apply in_seq in He.
-    unfold is_active. rewrite E. specialize (Hd e). rewrite E in Hd.
-    destruct (sel_value s e) as [z|]. destruct z; reflexivity.
-    exfalso. apply Hd; auto. lia. discriminate.
-Qed.
-
-(* counterexamples at observation level *)
-Definition nm (l : list Z) : name := l.
-(* names produced by the library itself: "a", "a.1" (repair), "a-1", "a-2" (multiple add): the pattern "a.1"
-   also matches "a-1", so the column named "a.1" cannot be fetched by its own name *)
-Definition cex_regex_state : state :=
-  run_ops [AddCols 1 (Some 1%Z) [97%Z] None 0 2; AddCols 1 (Some 2%Z) [97%Z] None 0 0; AddCols 2 (Some 3%Z) [97%Z] None 0 0].
-Lemma cex_regex :
-  Inv cex_regex_state /\ nth_error (names cex_regex_state) 1 = Some [97; 46; 49]%Z /\
-  column cex_regex_state 1 = [Some 2; Some 2]%Z /\ column_of_name cex_regex_state [97; 46; 49]%Z = [] /\
-  uid_of_name cex_regex_state [97; 46; 49]%Z = None.
-Proof.
-  split; [|repeat split; vm_compute; reflexivity].
-  apply Proofs_reach.reachable_inv. apply Proofs_reach.all_acceptedb_spec. vm_compute. reflexivity.
-Qed.
-(* addSamples with its default value (TEST) on a Db holding a selection *)
-Definition cex_active_state : state :=
-  run_ops [AddCols 1 (Some 1%Z) [115%Z] (Some SEL) 0 2; AddSamples 2 None].
-Lemma cex_active :
-  Inv cex_active_state /\ active_number cex_active_state = 4 /\
-  length (filter (is_active cex_active_state) (seq 0 (nech cex_active_state))) = 2.
-Proof.
-  split; [|split; vm_compute; reflexivity].
-  apply Proofs_reach.reachable_inv. apply Proofs_reach.all_acceptedb_spec. vm_compute. reflexivity.
+  unfold active_number. destruct (loc s SEL) as [|u0 l0] eqn:E; auto.
+  assert (F : filter (is_active s) (seq 0 (nech s)) = seq 0 (nech s)).
+  { rewrite <- (app_nil_r (seq 0 (nech s))) at 2. induction (seq 0 (nech s)); simpl; auto.
+    unfold is_active at 1. rewrite E. now rewrite IHl, app_nil_r. }
+  now rewrite F, seq_length.
 Qed.
 
 (* ------------------------------------------------------------------ non-vacuity witnesses *)
@@ -216,17 +187,4 @@ Proof.
   assert (H : Inv nv_state).
   { apply Proofs_reach.reachable_inv. apply Proofs_reach.all_acceptedb_spec. vm_compute. reflexivity. }
   split; auto. apply step_inv; auto. reflexivity.
-Qed.
-(* the hypotheses of the name part of C07_designators and of C07_counts_active are satisfiable *)
-Lemma nv_unamb : nth_error (names nv_state) 4 = Some [97; 46; 49]%Z /\ unamb nv_state [97; 46; 49]%Z.
-Proof.
-  split. vm_compute; reflexivity.
-  intros m Hin. vm_compute in Hin.
-  repeat (destruct Hin as [<-|Hin]; [vm_compute; intro; first [reflexivity | discriminate]|]). contradiction.
-Qed.
-Lemma nv_sel_defined : loc nv_sel_state SEL = [6] /\ sel_defined nv_sel_state /\ active_number nv_sel_state = 2.
-Proof.
-  split; [vm_compute; reflexivity|split; [|vm_compute; reflexivity]].
-  intros e He _. change (nech nv_sel_state) with 3 in He.
-  destruct e as [|[|[|e]]]; try lia; vm_compute; discriminate.
 Qed.
